@@ -462,12 +462,30 @@ def run_history(job: Dict[str, Any], emit, scratch: Path, tk: h5lib.Tokens, env:
             if prev is None:
                 prev = observe(drvs[0], km, tk, rng, snap, originals, 0)
             a = gen(rng, prev, env.stage, job)
+            ro_failed = None
             if a["op"] != "pack" and rng.random() < job.get("p_ro", 0.07):
                 # this operation meets containers over drivers opened read-only: it must be refused without effect
                 # (only looking up an existing group with require_group succeeds); afterwards writable again
                 a["ro"] = True
                 for d in drvs:
-                    d.reopen("r")
+                    try:
+                        d.reopen("r")
+                    except Exception as ex:
+                        ro_failed = (d, type(ex).__name__ + ": " + str(ex)[:200])
+            if ro_failed is not None:      # reopening must always work: reported as an event, not as a harness crash
+                out = []
+                for d in drvs:
+                    if d is ro_failed[0]:
+                        out.append({"drv": d.kind, "timeout": False, "obs_err": "reopen failed: " + ro_failed[1],
+                                    "tree": [], "meta": [], "links": [], "schemas": [], "pkgs": [], "empties": [], "weird": [],
+                                    "uview": [], "uvisit": [], "uextra": [], "queries": [], "gets": [], "files": [], "index_live": "",
+                                    "index_fresh": "", "ident": "", "ident_ok": True, "held": [], "ok": False, "exc": ro_failed[1]})
+                    else:
+                        o = observe(d, km, tk, rng, snap, originals, 0)
+                        o.update(ok=True, exc="")
+                        out.append(o)
+                emit({"t": "end", "tid": tid, "ev": {"op": "reopen", "a": {**a, "op": "reopen", "ro": False}, "env": snap, "d": out}})
+                break
             inst = CL.instances(a["cls"], rng) if a["op"] == "attach" else None
             emit({"t": "begin", "tid": tid, "i": step, "e": a})
             recs = []
@@ -511,8 +529,25 @@ def run_history(job: Dict[str, Any], emit, scratch: Path, tk: h5lib.Tokens, env:
             prev = out[0]
             emit({"t": "end", "tid": tid, "ev": {"op": a["op"], "a": a, "env": snap, "d": out}})
             if a.get("ro"):
+                failed = None
                 for d in drvs:
-                    d.reopen("r+")
+                    try:
+                        d.reopen("r+")
+                    except Exception as ex:   # reopening must always work: reported as an event, not as a harness crash
+                        failed = (d, type(ex).__name__ + ": " + str(ex)[:200])
+                if failed is not None:
+                    out = []
+                    for d in drvs:
+                        o = {"drv": d.kind, "timeout": False, "obs_err": "reopen failed: " + failed[1] if d is failed[0] else "",
+                             "tree": [], "meta": [], "links": [], "schemas": [], "pkgs": [], "empties": [], "weird": [],
+                             "uview": [], "uvisit": [], "uextra": [], "queries": [], "gets": [], "files": [], "index_live": "",
+                             "index_fresh": "", "ident": "", "ident_ok": True, "held": [], "ok": d is not failed[0], "exc": failed[1]}
+                        if d is not failed[0]:
+                            o = observe(d, km, tk, rng, snap, originals, 0)
+                            o.update(ok=True, exc="")
+                        out.append(o)
+                    emit({"t": "end", "tid": tid, "ev": {"op": "reopen", "a": {**a, "op": "reopen", "ro": False}, "env": snap, "d": out}})
+                    break
         if job.get("p_pack"):
             base_a = {"op": "", "p": [], "q": [], "key": "", "v": "", "without_meta": False, "schema": "", "sver": [],
                       "valid": True, "by": "", "cls": "", "as": "", "method": "", "rpath": "", "via": 0, "tok": "", "ro": False}
